@@ -45,6 +45,20 @@ func nsPerUnit(v ssa.Value, depth int) (float64, bool) {
 		}
 	case *ssa.BinOp:
 		return scaleBinOp(x, depth)
+	case *ssa.Phi:
+		// a clamped value: the constant edges (0) have no unit, the others must agree
+		scale, found := 0.0, false
+		for _, e := range x.Edges {
+			if _, isC := core.ConstInt(e); isC {
+				continue
+			}
+			s, ok := nsPerUnit(e, depth+1)
+			if !ok || (found && s != scale) {
+				return 0, false
+			}
+			scale, found = s, true
+		}
+		return scale, found
 	}
 	return 0, false
 }
@@ -288,7 +302,7 @@ func C06(p *core.Program, r *core.Report) {
 			case *ssa.BinOp:
 				// Duration(msValue) * k  : k must be time.Millisecond
 				if x.Op == token.MUL && isDurationType(x.Type()) {
-					if cv, ok := x.X.(*ssa.Convert); ok && isMsSource(cv.X) {
+					if cv, ok := x.X.(*ssa.Convert); ok && (isMsSource(cv.X) || isMsParam(p, fn, cv.X)) {
 						k, isC := core.ConstInt(x.Y)
 						nUN++
 						r.Check(isC && k == 1e6, fmt.Sprintf("unit/%s/ms-to-duration", fname(fn)), "a millisecond quantity (lifetime, bundle age) becomes a time.Duration by multiplying with time.Millisecond", p.Pos(x.Pos()), "", fmt.Sprintf("multiplied by %d ns", k))
@@ -572,6 +586,9 @@ func C06(p *core.Program, r *core.Report) {
 	ile := p.Func(bp7, "Bundle", "IsLifetimeExceeded")
 	okZero := len(core.CallsTo(ile, bp7+".CreationTimestamp.IsZeroTime")) > 0 && len(core.CallsTo(ile, bp7+".BundleAgeBlock.Age")) > 0
 	r.Check(okZero, "lifetime/"+fname(ile)+"/both-clocks", "IsLifetimeExceeded decides by age when the creation time is zero and by wall clock otherwise", p.Pos(ile.Pos()), "", "IsZeroTime/Age no longer consulted")
+	nMs := checkMillisecondConversions(p, r, bp7, storagePkg, routingPkg)
+	r.Min("millisecond <-> Duration conversions", 2)
+	r.Count("millisecond <-> Duration conversions", nMs)
 }
 
 func isMsSource(v ssa.Value) bool {
@@ -582,6 +599,31 @@ func isMsSource(v ssa.Value) bool {
 		return true
 	}
 	return false
+}
+
+// isMsParam: v is a parameter of a conversion helper every call site of which passes a millisecond source.
+func isMsParam(p *core.Program, fn *ssa.Function, v ssa.Value) bool {
+	par, ok := v.(*ssa.Parameter)
+	if !ok || fn.Signature.Recv() != nil {
+		return false
+	}
+	idx := -1
+	for i, q := range fn.Params {
+		if q == par {
+			idx = i
+		}
+	}
+	n := 0
+	for _, cs := range allCallSites(p, core.FuncName(fn)) {
+		if core.Callee(cs) != fn {
+			continue
+		}
+		n++
+		if idx < 0 || !isMsSource(core.Arg(cs, idx)) {
+			return false
+		}
+	}
+	return n > 0
 }
 
 func isTypedPtr(v ssa.Value, name string) bool {
@@ -787,4 +829,123 @@ func reachesWithinLoop(b *ssa.BasicBlock, l *core.Loop) bool {
 		stack = append(stack, x.Succs...)
 	}
 	return false
+}
+
+// checkMillisecondConversions: lifetimes, ages and residence times are unsigned numbers of milliseconds that come off
+// the wire or out of the store; as a time.Duration (int64 nanoseconds) they are multiplied by 10^6. A product beyond the
+// Duration's range wraps to an arbitrary, perhaps negative value: a bundle that never expires is taken for expired.
+// Every multiplication of a Duration converted from a 64-bit unsigned value by a constant of at least 1000 is dominated
+// by an upper-bound test of that value; and every signed millisecond count that is converted to an unsigned age is
+// dominated by a non-negative test (a wall clock set back makes time.Since negative).
+func checkMillisecondConversions(p *core.Program, r *core.Report, pkgs ...string) int {
+	want := map[*ssa.Package]bool{}
+	for _, rel := range pkgs {
+		want[p.Pkg(rel)] = true
+	}
+	n := 0
+	for _, fn := range p.RepoFuncs() {
+		if !want[fn.Pkg] || fn.Blocks == nil {
+			continue
+		}
+		nR, nS := 0, 0
+		core.EachInstr(fn, func(in ssa.Instruction) {
+			switch x := in.(type) {
+			case *ssa.BinOp:
+				if x.Op != token.MUL || !isDurationType(x.Type()) {
+					return
+				}
+				for _, pair := range [][2]ssa.Value{{x.X, x.Y}, {x.Y, x.X}} {
+					k, isC := core.ConstInt(pair[1])
+					cv, isConv := pair[0].(*ssa.Convert)
+					if !isC || k < 1000 || !isConv {
+						continue
+					}
+					bt, isB := cv.X.Type().Underlying().(*types.Basic)
+					if !isB || (bt.Kind() != types.Uint64 && bt.Kind() != types.Uint) {
+						continue
+					}
+					n++
+					nR++
+					r.Check(upperBounded(in.Block(), cv.X), fmt.Sprintf("duration-range/%s#%d", fname(fn), nR), "an unsigned 64-bit millisecond count is multiplied into a Duration only behind an upper-bound test (otherwise a huge lifetime wraps around and the bundle counts as expired)", p.Pos(in.Pos()), "", "no upper bound on the converted value dominates the multiplication")
+				}
+			case *ssa.Convert:
+				// uint64(d.Milliseconds()) / uint64(int64 value derived from time.Since)
+				bt, isB := x.Type().Underlying().(*types.Basic)
+				st, isS := x.X.Type().Underlying().(*types.Basic)
+				if !isB || !isS || bt.Kind() != types.Uint64 || st.Kind() != types.Int64 {
+					return
+				}
+				fromClock := core.DependsOn(x.X, func(v ssa.Value) bool {
+					c, ok := v.(*ssa.Call)
+					return ok && (core.CalleeName(c) == "time.Since" || core.CalleeName(c) == "time.Time.Sub")
+				})
+				if !fromClock {
+					return
+				}
+				n++
+				okNN := false
+				// the clamp idiom: d := x; if d < 0 { d = 0 } - a phi of a non-negative constant and the value on the
+				// edge on which it was found non-negative
+				if phi, isPhi := x.X.(*ssa.Phi); isPhi {
+					all := true
+					for i, e := range phi.Edges {
+						if k, isC := core.ConstInt(e); isC && k >= 0 {
+							continue
+						}
+						pred := phi.Block().Preds[i]
+						conds := core.DominatingConds(pred)
+						if ifi, isIf := pred.Instrs[len(pred.Instrs)-1].(*ssa.If); isIf {
+							conds = append(conds, core.Cond{V: ifi.Cond, True: pred.Succs[0] == phi.Block()})
+						}
+						edgeOK := false
+						for _, cd := range conds {
+							if b, ok := cd.V.(*ssa.BinOp); ok && b.X == e {
+								if z, isC := core.ConstInt(b.Y); isC && z == 0 {
+									if (b.Op == token.LSS && !cd.True) || (b.Op == token.GEQ && cd.True) || (b.Op == token.GTR && cd.True) || (b.Op == token.LEQ && !cd.True) {
+										edgeOK = true
+									}
+								}
+							}
+						}
+						if !edgeOK {
+							all = false
+						}
+					}
+					okNN = all
+				}
+				for _, cd := range core.DominatingConds(in.Block()) {
+					b, ok := cd.V.(*ssa.BinOp)
+					if !ok {
+						continue
+					}
+					if z, isC := core.ConstInt(b.Y); isC && z == 0 {
+						if (b.Op == token.LSS && !cd.True) || (b.Op == token.GEQ && cd.True) || (b.Op == token.GTR && cd.True) || (b.Op == token.LEQ && !cd.True) {
+							if core.DependsOn(x.X, func(v ssa.Value) bool { return v == b.X }) || core.DependsOn(b.X, func(v ssa.Value) bool { return v == x.X }) || sameClockSource(b.X, x.X) {
+								okNN = true
+							}
+						}
+					}
+				}
+				nS++
+				r.Check(okNN, fmt.Sprintf("duration-sign/%s#%d", fname(fn), nS), "a time difference taken from the wall clock becomes an unsigned age only behind a non-negative test (a clock set back, e.g. a reboot without RTC, makes it negative; as uint64 it is about 1.8e19 ms and the bundle is deleted as expired)", p.Pos(in.Pos()), "", "no test that the difference is not negative dominates the conversion")
+			}
+		})
+	}
+	return n
+}
+
+// sameClockSource: both values derive from the same time.Since / Sub call.
+func sameClockSource(a, b ssa.Value) bool {
+	var ca *ssa.Call
+	core.DependsOn(a, func(v ssa.Value) bool {
+		if c, ok := v.(*ssa.Call); ok && (core.CalleeName(c) == "time.Since" || core.CalleeName(c) == "time.Time.Sub") {
+			ca = c
+			return true
+		}
+		return false
+	})
+	if ca == nil {
+		return false
+	}
+	return core.DependsOn(b, func(v ssa.Value) bool { return v == ssa.Value(ca) })
 }
